@@ -200,7 +200,7 @@ func (s *sqlGen) sp() string {
 
 func (s *sqlGen) strLit() string {
 	g := s.g
-	pool := []string{"'x'", "'it''s'", "'a\\'b'", "'a\"b'", "'%a_'", "'\\\\d+'", "'a\\nb'", "''", "'tab\there'", "'back\\\\slash'", "'uni\xc3\xa9'", "'q\\tz'", "'semi;colon'", "'-- no comment'"}
+	pool := []string{"'x'", "'it''s'", "'a\\'b'", "'a\"b'", "'%a_'", "'\\\\d+'", "'a\\nb'", "''", "'tab\there'", "'back\\\\slash'", "'uni\xc3\xa9'", "'q\\tz'", "'semi;colon'", "'-- no comment'", "'end\\\\'", "'\\\\'", "'C:\\\\dir\\\\'", "'\\\\\\''"}
 	return Pick(g, pool)
 }
 
